@@ -20,10 +20,11 @@ def run(tier, seed):
     # ---- 1. exhaustive model checking, one config per adversary class (macro grain, N=4, f=1) ----
     classes = [
         dict(name="A0-silent", ByzBudget=0, ByzActs="NoActs", MaxRound=2),
-        dict(name="A2-equivocating-leader", ByzBudget=2, ByzActs="LeaderActs", MaxRound=2, LeaderOffset=3),
+        dict(name="A2-equivocating-leader-1", ByzBudget=1, ByzActs="LeaderActs", MaxRound=2, LeaderOffset=3),
     ]
     if tier == "thorough":
         classes += [
+            dict(name="A2-equivocating-leader-2", ByzBudget=2, ByzActs="LeaderActs", MaxRound=2, LeaderOffset=3),
             dict(name="A1-one-arbitrary-reception", ByzBudget=1, ByzActs="AllActs", MaxRound=2),
             dict(name="A1-byz-leader", ByzBudget=1, ByzActs="AllActs", MaxRound=2, LeaderOffset=3),
             dict(name="A3-lying-round-changes", ByzBudget=2, ByzActs="RCActs", MaxRound=2),
